@@ -32,6 +32,8 @@ type httpReq struct {
 	Status   int
 	Writes   [][]byte
 	Flush    int // 0 never, 1 after the first write, 2 at the end
+	Copy     bool // body written with io.Copy from a plain reader (no WriteTo) instead of Write
+	LateRead bool // the handler reads the request body after it has produced its response
 }
 
 type httpSeen struct {
@@ -86,6 +88,8 @@ func drawHTTPReq(e *Env, id int) *httpReq {
 		r.Writes = append(r.Writes, w)
 	}
 	r.Flush = e.PB(3, 0.35)
+	r.Copy = e.P(5) == 4
+	r.LateRead = e.P(4) == 3
 	// wire form
 	var b bytes.Buffer
 	proto := "HTTP/1.1"
@@ -139,7 +143,7 @@ func (r *httpReq) String() string {
 	for _, w := range r.Writes {
 		ws = append(ws, len(w))
 	}
-	return fmt.Sprintf("#%d %s %s HTTP/%s conn=%q body-mode=%d(%d bytes) | handler: read-body=%d resp-mode=%d(0 CL,1 chunked,2 neither) status=%d writes=%v flush=%d", r.ID, r.Method, clipS(r.Target, 20), proto, r.ConnHdr, r.BodyMode, len(r.Body), r.ReadBody, r.RespMode, r.Status, ws, r.Flush)
+	return fmt.Sprintf("#%d %s %s HTTP/%s conn=%q body-mode=%d(%d bytes) | handler: read-body=%d resp-mode=%d(0 CL,1 chunked,2 neither) status=%d writes=%v flush=%d io.Copy=%v read-body-after-responding=%v", r.ID, r.Method, clipS(r.Target, 20), proto, r.ConnHdr, r.BodyMode, len(r.Body), r.ReadBody, r.RespMode, r.Status, ws, r.Flush, r.Copy, r.LateRead)
 }
 
 //go:norace
@@ -170,13 +174,20 @@ func runC15(e *Env) {
 			return
 		}
 		r := reqs[id]
-		switch r.ReadBody {
-		case 1:
-			buf := make([]byte, len(r.Body)/2)
-			k, _ := io.ReadFull(hr.Body, buf)
-			seen.Body = buf[:k]
-		case 2:
-			seen.Body, _ = io.ReadAll(hr.Body)
+		readBody := func() {
+			switch r.ReadBody {
+			case 1:
+				buf := make([]byte, len(r.Body)/2)
+				k, _ := io.ReadFull(hr.Body, buf)
+				seen.Body = buf[:k]
+			case 2:
+				seen.Body, _ = io.ReadAll(hr.Body)
+			}
+		}
+		if !r.LateRead {
+			readBody()
+		} else {
+			defer readBody() // respond first, read the request body afterwards
 		}
 		w.Header().Set("X-Resp", seen.ID)
 		switch r.RespMode {
@@ -189,7 +200,11 @@ func runC15(e *Env) {
 			w.WriteHeader(r.Status)
 		}
 		for i, b := range r.Writes {
-			w.Write(b)
+			if r.Copy {
+				io.Copy(w, &fragReader{b: append([]byte(nil), b...), plan: []int{3, 100}})
+			} else {
+				w.Write(b)
+			}
 			if i == 0 && r.Flush == 1 {
 				w.(http.Flusher).Flush()
 			}
@@ -255,6 +270,9 @@ func runC15(e *Env) {
 		if s.ID != fmt.Sprint(r.ID) || s.Method != r.Method || s.Target != r.Target {
 			e.Violate("handler-once-per-request", "wrong-request,"+prevClass(reqs, i), "handler invocation %d saw %s %s (X-Id %q) instead of request %d (%s %s)", i, s.Method, clipS(s.Target, 30), s.ID, i, r.Method, clipS(r.Target, 30))
 			break
+		}
+		if r.ReadBody == 1 && !bytes.Equal(s.Body, r.Body[:len(r.Body)/2]) {
+			e.Violate("handler-once-per-request", "wrong-body", "handler asked for the first %d body bytes of request %d and got %d bytes that differ from the request's own body", len(r.Body)/2, i, len(s.Body))
 		}
 		if r.ReadBody == 2 && !bytes.Equal(s.Body, r.Body) {
 			e.Violate("handler-once-per-request", "wrong-body", "handler read %d body bytes for request %d instead of its %d-byte body", len(s.Body), i, len(r.Body))
